@@ -32,6 +32,10 @@ def mutants(which):
         for d in sorted(glob.glob('/tmp/seed/*/out/m*/patch.diff')):
             parts = d.split('/')
             ms.append(('tmp/%s-%s' % (parts[3], parts[5]), d, False))
+    if 'seed2' in which:
+        for d in sorted(glob.glob('/tmp/seed2/*/out/[mr]*/patch.diff')):
+            parts = d.split('/')
+            ms.append(('seed2/%s-%s' % (parts[3], parts[5]), d, False))
     if 'unfix' in which:
         for h, s in fix_commits():
             ms.append(('unfix/%s %s' % (h, s[:60]), h, True))
@@ -100,6 +104,8 @@ def main():
             flags.append(tag)
         hit = bool(res) and (own is None or own in res) and not (own and any(
             x.startswith(('ANALYSIS-ERROR', 'CRASH')) for x in res.get(own, [])))
+        if re.search(r'-r\d$', name) or 'preserving' in name:
+            hit = not res        # a behaviour-preserving change must stay silent
         if hit:
             caught += 1
         print('%-66s %s %s' % (name[:66], 'ok  ' if hit else 'MISS', ' '.join(flags)))
